@@ -107,6 +107,7 @@ class Universe:
         self.prices = None
         self.eth = [D(x) for x in case["eth"]]
         self.osq = [D(x) for x in case["osq"]]
+        self.nf = [D(x) for x in case["sq"]["nf"]] if "sq" in case else None
         self._given = frames or {}  # re-use supplied frame objects (a second run on the very same inputs)
         self._build_markets()
         if price_frame is not None:
@@ -174,6 +175,10 @@ class Universe:
                 pm = pre["squni"]
                 self._add("squni", pm)
                 sm = SqueethMarket(MarketInfo("sq", MarketTypeEnum.squeeth), pm)
+                if c.get("index_eq_mark"):
+                    # strict regime: normalisation factor chosen so that the index price of oSQTH equals its pool (mark) price
+                    s = dict(s, nf=[format(o * 10000 / e, "f") for o, e in zip(self.osq, self.eth)])
+                    self.nf = [D(x) for x in s["nf"]]
                 sm.data = self._given["sq"] if "sq" in self._given else pd.DataFrame({"norm_factor": pd.Series([D(x) for x in s["nf"]], index=self.idx, dtype=object), "WETH": pd.Series(list(self.eth), index=self.idx, dtype=object), "OSQTH": pd.Series(list(self.osq), index=self.idx, dtype=object)}, index=self.idx)
                 self._add("sq", sm)
             elif key == "aave":
@@ -708,7 +713,7 @@ def ref_value(u: Universe, bar, raw):
             tol += F(2, 10**4) * conv + (S + B) * conv / 10**20
         elif key == "sq":
             vaults, _ = raw[key]
-            nf = fr(c["sq"]["nf"][j])
+            nf = fr(u.nf[j])
             eth_row, osq_row = fr(u.eth[j]), fr(u.osq[j])
             tw_eth = fr(geo(twap_rows(u, bar, "eth")))
             pm = u.m["squni"]
